@@ -1920,8 +1920,10 @@ def k_readval( ctx ):
         for status in ( 0, 6, 8 ):
             write = kind.startswith( 'write' )
             given = [ 1, 2 ] if write else ( [ 7, 8 ] if status in ( 0, 6 ) or True else None )
-            env = { INDEX: 0, DESCR: 'd', REQ: {}, RPY: { 'status': status, kind: {} }, STS: status, VAL: given,
-                    'tag': 'T', 'act': '==', 'res': 'OK', 'elm': None, 'cnt': 2, 'off': 0, 'printing': False }
+            # the locals the summary line is written with ( whatever they are called ) are nothing: the line is then the scalar form
+            free = { n_.id for st_ in tail for n_ in ast.walk( st_ ) if isinstance( n_, ast.Name ) and isinstance( n_.ctx, ast.Load ) } - { 'print', 'log', 'True', 'False', 'None' }
+            env = { n_: None for n_ in free }
+            env.update( { INDEX: 0, DESCR: 'd', REQ: {}, RPY: { 'status': status, kind: {} }, STS: status, VAL: given } )
             try:
                 out = run_block( tail, env, ignore_calls=( 'log', 'print' ))
             except NoFold as exc:
@@ -1966,7 +1968,10 @@ def t_fragtext( ctx ):
     if OPR is None:
         raise AnalysisError( 'parse_operations: the operation dict of the write check not found' )
     def cell( frag, opr ):
-        env = { FRAG: frag, OPR: dict( opr ), 'size': 4, 'tag': 'T', 'val': '1', 'cast': int }
+        # the other locals of the check ( the element size, the texts shown in messages - whatever they are called ) are a small positive number
+        free = { n_.id for n_ in ast.walk( ifs[0] ) if isinstance( n_, ast.Name ) and isinstance( n_.ctx, ast.Load ) } - { 'len', 'log', 'True', 'False', 'None' }
+        env = { n_: 4 for n_ in free }
+        env.update( { FRAG: frag, OPR: dict( opr ), 'len': len } )
         try:
             return run_block( [ ifs[0] ], env, ignore_calls=( 'log', )).kind
         except NoFold as exc:
